@@ -27,7 +27,8 @@ fn tok(x: f32) -> String {
 struct Site {
     info: Info,
     bucket: Bucket,
-    /// the menu in the order of the BTreeMap the code builds (derived `Ord` of `Edge`)
+    /// the menu of the information set (`Vec<Edge>::from(bucket.2)`) in the order of the BTreeMap
+    /// the code builds (derived `Ord` of `Edge`)
     edges: Vec<Edge>,
     player: usize,
 }
@@ -43,7 +44,9 @@ fn sites_of(bp: &Blueprint, want: usize) -> Vec<Site> {
                 _ => continue,
             };
             let bucket = node.bucket().clone();
-            let edges: Vec<Edge> = node.outgoing().into_iter().cloned().collect::<BTreeSet<_>>().into_iter().collect();
+            // the actions AVAILABLE at the information set = its menu (third component of the
+            // bucket, `Node::choices`), not the children that happen to be in the sampled tree
+            let edges: Vec<Edge> = Vec::<Edge>::from(bucket.2.clone()).into_iter().collect::<BTreeSet<_>>().into_iter().collect();
             out.push(Site { info, bucket, edges, player });
         }
     }
@@ -588,6 +591,101 @@ fn main() {
         run.notes.push(format!("training-produced states: {epochs} real epochs x {batch} trees, then counter reset to 0 as by Profile::load; {visited} information-set visits checked"));
     }
 
+    // ---- late epochs (around and far beyond the pruning phase) with hopelessly negative stored
+    //      regrets on one / several / all-but-one / all actions; the trees are sampled AFTER the
+    //      values are in place, through the real sampler: strategy and recorded regrets must still
+    //      cover exactly the menu of every traverser information set
+    {
+        use robopoker::verif::CFR_PRUNNING_PHASE;
+        let presample = if a.thorough() { [600usize, 150] } else { [200usize, 40] };
+        let after = if a.thorough() { 40 } else { 8 };
+        let lows = [REGRET_MIN, -1e6f32, f32::from_bits((-3e8f32).to_bits() + 1), -1e9, -1e30, f32::MIN];
+        let bp = Blueprint::verif_new(Profile::default(), Encoder::default());
+        let arc = bp.verif_profile();
+        for parity in 0..2usize {
+            arc.write().unwrap().verif_set_epochs(parity);
+            for _ in 0..presample[parity] {
+                let _ = bp.verif_tree(); // witnesses the buckets (most of the 169 root classes of each player)
+            }
+        }
+        let mut touched = 0u64;
+        {
+            let mut p = arc.write().unwrap();
+            for (bucket, rows) in p.verif_buckets() {
+                let n = rows.len();
+                if n < 2 || rng.chance(1, 4) {
+                    continue;
+                }
+                let k = match rng.below(4) { 0 => 1, 1 => 1 + rng.below(n as u64 - 1) as usize, 2 => n - 1, _ => n };
+                let mut idx: Vec<usize> = (0..n).collect();
+                for _ in 0..k {
+                    let i = idx.swap_remove(rng.below(idx.len() as u64) as usize);
+                    let low = if rng.chance(1, 3) { lows[rng.below(lows.len() as u64) as usize] } else { lows[2 + rng.below(4) as usize] };
+                    p.verif_set_memory(&bucket, &rows[i].0, low, rows[i].2);
+                }
+                touched += 1;
+            }
+        }
+        let mut ts: Vec<usize> = vec![CFR_PRUNNING_PHASE - 2, CFR_PRUNNING_PHASE - 1, CFR_PRUNNING_PHASE, CFR_PRUNNING_PHASE + 1, CFR_PRUNNING_PHASE + 2, CFR_PRUNNING_PHASE + 3];
+        ts.extend([1_000_000_000usize, 1_000_000_001, (1usize << 40) + 6, (1usize << 40) + 7]);
+        let mut checked = 0u64;
+        for t in ts {
+            arc.write().unwrap().verif_set_epochs(t);
+            let mut fresh: Vec<Site> = vec![];
+            for _ in 0..(if t % 2 == 0 { after * 6 } else { after / 2 }) {
+                match catch(AssertUnwindSafe(|| sites_of(&bp, 1))) {
+                    Some(v) => fresh.extend(v),
+                    None => run.fail("sampling-aborts", &format!("tree sampled at epoch counter {t} with hopeless stored regrets"), "a tree", "panic"),
+                }
+            }
+            let p = arc.read().unwrap();
+            for site in fresh.iter() {
+                let r: Vec<Option<f32>> = site.edges.iter().map(|e| p.verif_memory(&site.bucket, e).map(|m| m.0)).collect();
+                let depth = Vec::<Edge>::from(site.bucket.0.clone()).len();
+                let hopeless = r.iter().filter(|x| x.map(|v| v < -3e8).unwrap_or(false)).count();
+                if hopeless == 0 && depth > 0 && !rng.chance(1, 10) {
+                    continue; // untouched deep buckets: a sample of them is enough
+                }
+                run.evaluations += 1;
+                checked += 1;
+                let got = catch(AssertUnwindSafe(|| p.policy_vector(&site.info)));
+                run.count(&format!("late-epoch: {} bucket, {}", if depth == 0 { "root-level" } else { "deeper" },
+                    if hopeless == 0 { "no action below -3e8" } else if hopeless == r.len() { "all actions below -3e8" } else { "some actions below -3e8" }));
+                if r.iter().all(|x| x.is_some()) {
+                    let r: Vec<f32> = r.iter().map(|x| x.unwrap()).collect();
+                    let bits = r.iter().map(|x| x.to_bits().to_string()).collect::<Vec<_>>().join(" ");
+                    let answer = match &got {
+                        None => "panic".to_string(),
+                        Some(m) => m.values().map(|v| tok(*v)).collect::<Vec<_>>().join(" "),
+                    };
+                    let op = format!("policy32 {} {} {}", site.player, t, bits);
+                    run.line(&op, &answer);
+                    run.line(&format!("policyq {} {} {}", site.player, t, bits), &answer);
+                    run.distinct(&(site.player, t, bits));
+                    oracle(&mut run, &format!("{op} [tree sampled at epoch counter {t} after the stored regrets were set; bucket {}]", site.bucket), site, t, &r, &got);
+                } else {
+                    run.fail("menu-action-not-witnessed", &format!("bucket {} at epoch counter {t}", site.bucket), "a stored entry for every action of the menu", &format!("{r:?}"));
+                }
+                run.spec_checked += 1;
+                match catch(AssertUnwindSafe(|| p.regret_vector(&site.info))) {
+                    None => run.fail("regret-vector-panics", &format!("bucket {} at epoch counter {t}", site.bucket), "a clamped finite vector", "panic"),
+                    Some(m) => {
+                        let keys: Vec<Edge> = m.keys().cloned().collect();
+                        if keys != site.edges {
+                            run.fail("regret-keys-differ-from-menu", &format!("regret_vector at bucket {} (tree sampled at epoch counter {t}, stored regrets {r:?})", site.bucket), &format!("{:?}", site.edges), &format!("{keys:?}"));
+                        }
+                        for v in m.values() {
+                            if !(v.is_finite() && *v >= REGRET_MIN && *v <= REGRET_MAX) {
+                                run.fail("recorded-regret-outside-clamp", &format!("bucket {} at epoch counter {t}", site.bucket), &format!("[{REGRET_MIN:e}, {REGRET_MAX:e}]"), &format!("{v:e}"));
+                            }
+                        }
+                    }
+                }
+            }
+        }
+        run.notes.push(format!("late-epoch states: {touched} witnessed buckets given stored regrets in {{-3e5, -1e6, -3e8-eps, -1e9, -1e30, f32::MIN}} on 1 / several / all-but-one / all actions; trees sampled afterwards at 10 epoch counters around CFR_PRUNNING_PHASE = {CFR_PRUNNING_PHASE} and far beyond (both parities); {checked} information sets checked against their menu"));
+    }
+
     // ---- regret_vector on the sampled trees, stored strategies made extreme
     for bp in &blueprints {
         let arc = bp.verif_profile();
@@ -610,7 +708,7 @@ fn main() {
             }
             let p = arc.read().unwrap();
             for info in infos.iter() {
-                let menu: BTreeSet<Edge> = info.node().outgoing().into_iter().cloned().collect();
+                let menu: BTreeSet<Edge> = Vec::<Edge>::from(info.node().bucket().2.clone()).into_iter().collect();
                 run.evaluations += 1;
                 run.spec_checked += 1;
                 let got = catch(AssertUnwindSafe(|| p.regret_vector(info)));
@@ -684,7 +782,7 @@ fn main() {
          {{0,1,2,small,<2^20,<2^40,2^k,usize::MAX-k}} with parity chosen to match the node's player (1/25 deliberately mismatched: must abort), \
          1/60 with a stored NaN/inf (correspondence only); regret_vector on every information set of {tree_rounds} more trees per traverser with \
          the stored average strategy left as is / randomised / made extreme; {clamp_cases} random bit patterns through the clamp expression; \
-         walker at 2064 counters; plus every information set visited during real training epochs (4 trees per epoch) and after a simulated load; Profile::counterfactual in ask / change regrets / ask again (same epoch) / next x2 / ask sequences, half on fresh threads; real add_regret/add_policy sequences (both orders) ending with no positive regret beside a skewed stored average strategy; the stored policy column of every synthetic case varies independently of the regrets; save -> blueprint cut at row boundaries inside a bucket, inside rows, at bucket boundaries, without trailer -> load -> menu completeness, policy_vector at the known information sets, two resumed epochs. A policy case is non-trivial always (>= 2 actions or a checked singleton); distinct by (player, t, regret bits)"
+         walker at 2064 counters; plus every information set visited during real training epochs (4 trees per epoch) and after a simulated load; Profile::counterfactual in ask / change regrets / ask again (same epoch) / next x2 / ask sequences, half on fresh threads; real add_regret/add_policy sequences (both orders) ending with no positive regret beside a skewed stored average strategy; the stored policy column of every synthetic case varies independently of the regrets; save -> blueprint cut at row boundaries inside a bucket, inside rows, at bucket boundaries, without trailer -> load -> menu completeness, policy_vector at the known information sets, two resumed epochs. late-epoch states: hopelessly negative stored regrets (down to f32::MIN) on subsets of the actions of witnessed buckets, trees sampled afterwards at counters around and beyond CFR_PRUNNING_PHASE, keys compared with the menu of the bucket (not with the children of the sampled node). A policy case is non-trivial always (>= 2 actions or a checked singleton); distinct by (player, t, regret bits)"
     );
     run.finish();
 }
